@@ -36,6 +36,8 @@ def trees() -> Dict[str, TCls]:
         'or (or %default unit nat) string': t('or', t('or', u(), n(), f='default'), s()),
         'or (unit %root) (nat %b)': t('or', u(f='root'), n(f='b')),
         'or (or (unit %a) (nat %default)) (string %c)': t('or', t('or', u(f='a'), n(f='default')), s(f='c')),
+        # both reserved names taken by branches: the branch called `root` owns that name (the whole parameter then has no name of its own)
+        'or (unit %default) (nat %root)': t('or', u(f='default'), n(f='root')),
         # the empty annotation `%` is legal Michelson and means "no annotation" (pytezos parses it to the field name '')
         'or (unit %) (nat %b)': t('or', u(f=''), n(f='b')),
         'or (or % (unit %a) nat) (string %)': t('or', t('or', u(f='a'), n(), f=''), s(f='')),
@@ -229,7 +231,12 @@ def run(repo: Repo, chk: Check) -> None:
 
             def trip(i, vfull=vfull):
                 pc = create(i)
-                v1 = i.call_function(FuncRef(fp, pc, True), [{'entrypoint': pc.fields['root_name'], 'value': vfull}], {}, None, force_inline=True)
+                if rn in names:
+                    # the name the root would get belongs to a branch: the whole value has no (entrypoint, argument) form, it is parsed as it is
+                    fmv = repo.find_method(PARAM, 'from_micheline_value')
+                    v1 = i.call_function(FuncRef(fmv, pc, True), [vfull], {}, None, force_inline=True)
+                else:
+                    v1 = i.call_function(FuncRef(fp, pc, True), [{'entrypoint': pc.fields['root_name'], 'value': vfull}], {}, None, force_inline=True)
                 pair = i.call_function(FuncRef(tp, v1, True), [], {}, None, force_inline=True)
                 i.event('pair', pair)
                 v2 = i.call_function(FuncRef(fp, pc, True), [dict(pair)], {}, None, force_inline=True)
